@@ -95,13 +95,16 @@ pub open spec fn pos_is(p: Position, i: OffsetStrIter) -> bool {
 // on_boundary(bs, k): the rest of the text from k on is well-formed UTF-8 (vstd::utf8::valid_utf8).  For the bytes of a
 // &str this is `str::is_char_boundary(k)` (lemma_boundary_is_char_boundary), and it holds at every ASCII byte and at the
 // end (lemma_ascii_on_boundary): nothing here is a caller obligation.
-pub open spec fn on_boundary(bs: Seq<u8>, k: int) -> bool { 0 <= k <= bs.len() && valid_utf8(bs.skip(k)) }
+#[verifier::opaque]
+pub open spec fn suffix_valid(bs: Seq<u8>, k: int) -> bool { valid_utf8(bs.skip(k)) }
+pub open spec fn on_boundary(bs: Seq<u8>, k: int) -> bool { 0 <= k <= bs.len() && suffix_valid(bs, k) }
 
 // a byte on a boundary is not a continuation byte (10xxxxxx); an ASCII byte is a whole character
 pub proof fn lemma_boundary_step(bs: Seq<u8>, k: int)
     requires on_boundary(bs, k), k < bs.len()
     ensures !is_continuation_byte(bs[k]), bs[k] != 0x85, bs[k] != 0xA0, bs[k] < 0x80 ==> on_boundary(bs, k + 1),
 {
+    reveal(suffix_valid);
     reveal_with_fuel(valid_utf8, 2);
     assert(bs.skip(k)[0] == bs[k]);
     assert(bs.skip(k).skip(1) =~= bs.skip(k + 1));
@@ -151,6 +154,7 @@ pub proof fn lemma_ascii_on_boundary(s: &str, k: int)
     requires 0 <= k <= encode_utf8(s@).len(), k < encode_utf8(s@).len() ==> encode_utf8(s@)[k] < 0x80
     ensures on_boundary(encode_utf8(s@), k)
 {
+    reveal(suffix_valid);
     let bs = encode_utf8(s@);
     encode_utf8_valid_utf8(s@);
     if k < bs.len() {
@@ -1420,7 +1424,7 @@ pub open spec fn str_tok<'a>(i: OffsetStrIter<'a>, r: Result<OffsetStrIter<'a>, 
 //@   >>>
 //@   body_start <<<
     proof {
-        reveal_strlit("\""); lemma_ascii_text("\""@); lemma_starts_1(bytes_of(i), off_of(i), 0x22);
+        reveal_strlit("\""); lemma_ascii_text("\""@); assert(lit("\"") =~= seq![0x22u8]); lemma_starts_1(bytes_of(i), off_of(i), 0x22);
         // the closing quote is ASCII: what follows it starts a character
         assert forall|k: int| 0 < k <= bytes_of(i).len() && bytes_of(i)[k - 1] == 0x22 implies on_boundary(bytes_of(i), k) by {
             lemma_ascii_on_boundary(i.contained.source, k - 1);
